@@ -4,6 +4,7 @@
 //! The OCaml driver (extracted Coq model) recomputes the result from `op args` and compares.
 mod sbdd;
 mod scli;
+mod sdot;
 mod shist;
 mod sset;
 mod stext;
@@ -75,6 +76,7 @@ fn main() {
         "cli" => scli::main(&mut out, &o),
         "set" => sset::main(&mut out, &o),
         "hist" => shist::main(&mut out, &o),
+        "dot" => sdot::main(&mut out, &o),
         "replay" => {
             // re-run case lines given on stdin (op \t args [\t old-real]) against the current implementation
             let stdin = std::io::stdin();
@@ -112,6 +114,10 @@ fn replay_one(op: &str, args: &str, o: &Opts) -> String {
         },
         "tok" | "parse" | "eval" => match sx::parse(args) {
             Ok(x) => stext::replay(op, &x),
+            Err(e) => format!("(harness-error {e})"),
+        },
+        "dotbdd" | "dotnamed" | "dottree" => match sx::parse(args) {
+            Ok(x) => sdot::replay(op, &x),
             Err(e) => format!("(harness-error {e})"),
         },
         "hist" | "heap" => match sx::parse(args) {
